@@ -106,6 +106,10 @@ def run_history(res, stack, cfg, hist, label):
                     r = getattr(m, name)(k, v, e)
                     exp = ("ret", True if nr else r)
                     call = (name, (k, v, e), kw)
+                elif name == "setbig":
+                    # a value above the 1 MiB item limit on a key that holds nothing: the server refuses it with SERVER_ERROR
+                    exp = ("exc", "MemcacheServerError")
+                    call = ("set", (args[0], b"B" * ((1 << 20) + 1)), {"noreply": False})
                 elif name in ("append", "prepend"):
                     r = getattr(m, name)(args[0], args[1])
                     exp = ("ret", True if nr else r)
@@ -313,6 +317,8 @@ def random_history(rng):
             h.append(("set_many", tuple((x, rng.choice(vals)) for x in ks)) + nr)
         elif c == 17:
             h.append(("delete_many", tuple(rng.sample(keys, rng.randrange(1, 4)))) + nr)
+        elif c == 19 and rng.random() < 0.15:
+            h.append(("setbig", "fresh-%d" % len(h)))
         elif c == 18 and rng.random() < 0.3:
             h.append(("flush_all",) + ((rng.choice([0, 3]),) if rng.random() < 0.5 else ()))
         else:
@@ -362,6 +368,14 @@ def shard(tier, seed, idx, n):
                 continue
             cfg = cfgs[(work // n) % 2]
             run_history(res, "client", cfg, list(hist), "exhaustive")
+    # the wrapper classes get the exhaustive treatment for histories of length <= 2 (3 in thorough)
+    for stack in ("pooled", "hash", "hashpooled"):
+        for L in range(1, (2 if tier == "quick" else 3) + 1):
+            for hist in itertools.product(A, repeat=L):
+                work += 1
+                if work % n != idx:
+                    continue
+                run_history(res, stack, cfgs[(work // n) % 2], list(hist), "exhaustive-" + stack)
     rng = random.Random(seed * 2654435761 + idx)
     count = 150 if tier == "quick" else 6000
     stacks = ["client", "client", "pooled", "hash", "hashpooled"]
